@@ -9,7 +9,10 @@ def _ops():
     from pyrates import OperatorTemplate
     v = {'x': 'output(0.0)', 'c': 0.0, 'a': 0.0, 'u': 'input(0.0)', 'ext': 'input(0.0)'}
     eqs = {1: "x' = c + a*x + u + ext", 2: "x' = ext + u + a*x + c", 3: "x' = (c + u) + (a*x + ext)"}
-    return {k: OperatorTemplate(f'lin{k}', equations=[e], variables=dict(v)) for k, e in eqs.items()}
+    ops = {k: OperatorTemplate(f'lin{k}', equations=[e], variables=dict(v)) for k, e in eqs.items()}
+    vd = dict(v, kd=0.0, taud=1.0)
+    ops[5] = OperatorTemplate('lin5', equations=["x' = c + a*x + u + ext + kd*past(x, taud)"], variables=vd)
+    return ops
 
 
 def build(m, scale=1.0, node_order=None, delay_jitter=0.0, name='net'):
@@ -21,8 +24,11 @@ def build(m, scale=1.0, node_order=None, delay_jitter=0.0, name='net'):
     nodes = {}
     for i in order:
         op = ops[m['kind'][i - 1]]
-        nodes[f'n{i}'] = NodeTemplate(f'n{i}', operators={op: {'c': m['c'][i - 1] / scale, 'a': m['a'][i - 1] / scale,
-                                                               'x': float(m['x0'][i - 1])}})
+        over = {'c': m['c'][i - 1] / scale, 'a': m['a'][i - 1] / scale, 'x': float(m['x0'][i - 1])}
+        if m['kind'][i - 1] == 5:
+            sd = m['sd'][i - 1]
+            over.update(kd=sd['k'] / scale, taud=(sd['lag'] + delay_jitter) * scale)
+        nodes[f'n{i}'] = NodeTemplate(f'n{i}', operators={op: over})
     edges = []
     for e in m['edges']:
         attr = {'weight': e['w'] / scale}
